@@ -412,8 +412,23 @@ class AnsiString:
                         del settings_point.rem[i]
 
                 if idx == end:
-                    if end != len(self._s):
-                        settings_point.add += removed_settings
+                    if end != len(self._s) and removed_settings:
+                        # The removed settings which continue past the end must start again here, at the same
+                        # position of the stack as before. current_settings still reflects the original stack, so
+                        # restart everything from the lowest removed setting upward, in the original order.
+                        base = [
+                            s for s in current_settings
+                            if __class__._find_setting_reference(s, settings_point.add) < 0
+                        ]
+                        restart = []
+                        for s in base:
+                            if restart or __class__._find_setting_reference(s, removed_settings) >= 0:
+                                restart.append(s)
+                        settings_point.rem += [
+                            s for s in restart
+                            if __class__._find_setting_reference(s, removed_settings) < 0
+                        ]
+                        settings_point.add[:0] = restart
                 else:
                     for i in reversed(range(len(settings_point.add))):
                         if ansi_settings is None or settings_point.add[i] in ansi_settings:
